@@ -36,6 +36,22 @@ def case(draw, tier):
     start = 0  # the TESTING record/replay backend indexes its dense buffer from MIN_ST (eval_node usage)
     horizon = draw(st.integers(3, 30 if big else 12))
     opts = {"cancel": True, "multi": True, "no_rewrite": True, "inval": False, "keys": draw(st.sampled_from([4, 8])), "grow": draw(st.booleans()), "whole": True}
+    if kind == 2:
+        # an UNSIZED list grown by writes at arbitrary indices (holes stay invalid), flat or as a dictionary element
+        inner = ("TSL", ("TS", "int"), 0)
+        nested = draw(st.booleans())
+        schema = ("TSD", "int", inner) if nested else inner
+        script, top = [], 0
+        from hgv.gen import time_set
+        for t in draw(time_set(start, start + horizon - 1, 1, 10 if big else 6)):
+            ops = []
+            for _ in range(draw(st.integers(1, 3))):
+                i = draw(st.integers(0, min(top + 3, 12)))
+                top = max(top, i)
+                w = {"k": "i", "i": i, "op": {"k": "set", "v": draw(st.integers(-3, 30))}}
+                ops.append({"k": "D", "ops": [["at", draw(st.integers(0, 2)), w]]} if nested else w)
+            script.append([t, ops])
+        return {"schema": schema, "script": script, "start": start, "end": start + horizon}
     script = draw(tm.history(schema, start, horizon, opts, max_cycles=12 if big else 7))
     return {"schema": schema, "script": script, "start": start, "end": start + horizon}
 
